@@ -153,7 +153,7 @@ func (b *exampleBuilder) buildExampleForMixedValueNode(node *ischema.MixedValueN
 
 	if cnt := b.processedTypes[typeName]; cnt > 1 {
 		// Do not process already processed type more than twice.
-		return nil, nil
+		return b.cutRecursion(node), nil
 	}
 
 	b.processedTypes[typeName]++
@@ -165,7 +165,25 @@ func (b *exampleBuilder) buildExampleForMixedValueNode(node *ischema.MixedValueN
 	if !ok {
 		return nil, errs.ErrUserTypeNotFound.F(typeName)
 	}
-	return b.Build(t.Schema.RootNode())
+	ex, err := b.Build(t.Schema.RootNode())
+	if err != nil {
+		return nil, err
+	}
+	if ex == nil {
+		return b.cutRecursion(node), nil
+	}
+	return ex, nil
+}
+
+// cutRecursion returns what stands for a reference whose expansion was cut:
+// `null` if the reference is nullable, otherwise nothing (the element is left
+// out by the caller). Without it a schema that is nothing but a nullable
+// reference to itself had the empty text as its example.
+func (*exampleBuilder) cutRecursion(node *ischema.MixedValueNode) []byte {
+	if ischema.IsNullableNode(node) {
+		return []byte("null")
+	}
+	return nil
 }
 
 func buildExample(node ischema.Node, types map[string]ischema.Type) ([]byte, error) {
